@@ -726,22 +726,24 @@ pub fn check_c14(prog: &NetProgram, res: &NetResult, info: &mut RunInfo) {
             _ => {}
         }
     }
-    let mut last: BTreeMap<u64, (u32, u32)> = BTreeMap::new(); // per send instant: (offer uid, arrival seq)
+    // messages emitted by one module at one instant with the same delay reach the event set in program order
+    let mut last: BTreeMap<(usize, u64, u64), (u32, u32)> = BTreeMap::new(); // (module, send instant, delay): (offer uid, arrival seq)
     for r in tr {
-        if let Ev::Offer { uid, gate, delay_ns: 0, .. } = &r.ev {
+        if let Ev::Offer { uid, gate, delay_ns, .. } = &r.ev {
             let hops = graph.walk((r.m as usize, *gate as usize));
             if hops.iter().any(|h| h.1.is_some()) {
                 continue;
             }
             let Some(arr) = first_seen.get(uid) else { continue };
-            if let Some((puid, pseq)) = last.get(&r.t) {
+            let key = (r.m as usize, r.t, *delay_ns);
+            if let Some((puid, pseq)) = last.get(&key) {
                 if arr < pseq {
                     info.violate(Violation::new("C14", "emission-order", format!(
-                        "message {uid:#x} was emitted after {puid:#x} in the same instant ({} ns) but reached its destination first", r.t)));
+                        "message {uid:#x} was emitted after {puid:#x} by module {} at {} ns (both with delay {delay_ns} ns) but reached its destination first", r.m, r.t)));
                     return;
                 }
             }
-            last.insert(r.t, (*uid, *arr));
+            last.insert(key, (*uid, *arr));
         }
     }
     info.events += res.ok.map_or(0, |o| o.1 as u64);
@@ -981,8 +983,13 @@ pub fn expected_len_uid(prog: &NetProgram, m: usize, site: usize, ai: usize, uid
 
 // ---------------------------------------------------------------- C20
 
-pub fn check_c20(_prog: &NetProgram, res: &NetResult, stop: &str, info: &mut RunInfo) -> bool {
-    if let Some(e) = &res.escaped_panic {
+pub fn check_c20(prog: &NetProgram, res: &NetResult, stop: &str, info: &mut RunInfo) -> bool {
+    // a panic in a processing element is not contained by the module harness: it unwinds out of run() by design.
+    // That is one more way for a simulation to end; everything must still be released.
+    let pe_panics = prog.gstack.iter().chain(prog.modules.iter().flat_map(|m| m.pes.iter())).any(|p| p.mode == 4);
+    if res.escaped_panic.is_some() && pe_panics {
+        info.probe("ended_by_panic_unwinding_out_of_run");
+    } else if let Some(e) = &res.escaped_panic {
         info.violate(Violation::new("C20", "panic", format!("building, running or dropping the model panicked ({stop}): {e}")));
         return false;
     }
